@@ -24,6 +24,9 @@ import TboxModel.C17.ExecLog
 import TboxModel.C17.Rerun
 import TboxModel.C17.Local
 import TboxModel.C17.ParLeaves
+import TboxModel.C17.NotStuck
+import TboxModel.C17.LateProofs
+import TboxModel.C17.Tmo
 namespace Tbox.C17
 
 /-! ## Layer 1 — one action, every call sequence
@@ -459,10 +462,7 @@ theorem C17_reset_fresh_reentrant (t : T) (ops : List OpR) (hc : Clean t = true)
   have a := reset_wf _ _ (reachableR_wf t ops hc hl).1 (reachableR_wf t ops hc hl).2
   exact ⟨a.2.2, a.1⟩
 
-/-- a Running composite with nothing to wait for: nothing under way, queued or armed in its subtree -/
-def stuckRoot (t : T) : Bool :=
-  t.data.st == .running && !t.data.isLeaf && (allTasks t []).isEmpty && (allTimers t []).isEmpty &&
-  AllNodesL (fun d => !d.underway) t.children
+-- (`stuckRoot`: NotStuck.lean)
 
 def noTail : Cfg := { fixTail := false }
 def noLoop : Cfg := { fixLoop := false }
@@ -610,6 +610,114 @@ theorem C17_timeout_result_depends_on_pass_granularity :
     rootFins (run raceTree {} [.calls [.start], .adv 300, .pass, .pass]) = [(false, .finished)] ∧
     Quiet (run raceTree {} [.calls [.start], .adv 300, .pass, .pass]).1 = true := by decide +kernel
 
+
+/-! ## Round 9 — "a Running composite waits for something", late passes, widths, what a firing timeout does -/
+
+-- OPEN C17_never_stuck (full): `stuckRoot` is false in EVERY reachable state of EVERY tree (any control calls).
+/-- **`C17_never_stuck_partial`, serial class** (hypotheses: `SerOk`, control-free schedule, the documented meaning terminates — all
+decidable): after `start` and ANY sequence of loop passes and clock steps the root is never a Running composite with nothing
+queued, nothing armed and nothing under way below it.  (A stuck root is inert, an inert tree is a fixed point of every
+control-free step, and `Live` says the root hands in its finish notification after `cost t` big ops.) -/
+theorem C17_never_stuck_partial (t : T) (hs : SerOk t = true) (hc : Clean t = true) (ops : List Op) (hcf : ops.all cfOp = true)
+    (hr : (eval t).isSome = true) : stuckRoot (run t {} (.calls [.start] :: ops)).1 = false :=
+  never_stuck_run t hs hc ops hcf (by intro h; rw [h] at hr; cases hr)
+
+/-- … and for ParallelAction (all modes, any number of Function / Sleep children) as the root -/
+theorem C17_never_stuck_par_leaves (d : Node) (l : List Node) (m : Mode3) (hk : d.kind = .par m) (htmo : d.tmo = none)
+    (hc : cleanNode d = true) (hl : ∀ c ∈ l, leafOkB c = true) (ops : List Op) (hcf : ops.all cfOp = true) :
+    stuckRoot (run (.node d (ofList l)) {} (.calls [.start] :: ops)).1 = false :=
+  par_leaves_never_stuck d l m hk htmo hc hl ops hcf
+
+/-- (the full statement is false in the unrepaired configuration only: `C17_start_tail_after_reset_counterexample`.)  Non-vacuity: -/
+example : SerOk loopTree = true ∧ (eval loopTree).isSome = true ∧
+    stuckRoot (run loopTree {} [.calls [.start], .pass, .adv 50, .pass]).1 = false := by decide +kernel
+
+/-- **the tree invariant with late passes**: `WF` holds in every state reached by any sequence of ops and LATE passes
+(`OpL.late ms calls`: the clock moves by `ms` after the timer phase, then control calls are made — `pause()` may find a sleep
+whose deadline has passed, `stop()` / `reset()` an action whose timeout is due).  With it all corollaries of layer 2. -/
+theorem C17_tree_inv_late (t : T) (ops : List OpL) (hc : Clean t = true) (hl : LeafShape t = true) :
+    WF (runL t {} ops).1 = true ∧ EndedQuiet (runL t {} ops).1 = true ∧ AllNodes nodeOk (runL t {} ops).1 = true ∧
+    AllNodes (fun d => d.finals == (if d.ended then 1 else 0)) (runL t {} ops).1 = true ∧
+    Quiet (stop (runL t {} ops).1 (runL t {} ops).2).1 = true ∧
+    Clean (reset (runL t {} ops).1 (runL t {} ops).2).1 = true :=
+  have h := reachableL_wf t ops hc hl
+  ⟨h.1, wf_endedQuiet _ h.1, wf_allNodes _ h.1, wf_finals _ h.1, (stop_wf _ _ h.1 h.2).2.2, (reset_wf _ _ h.1 h.2).2.2⟩
+
+/-- a late pause: Sequence[Sleep 500 ms, F]: 700 ms pass before `pause()` is called in a pass whose timer phase is over; the
+remaining span is −200 ms; `resume()` arms the timer at now − 200 (uint64: `C17_sleep_deadline_width`), it fires at once -/
+example : ((runL (comp 0 (.seq .all) [leaf 1 (.sleep 500), leaf 2 (.func true none)]) {}
+      [.op (.calls [.start]), .late 700 [.pause], .op (.calls [.resume])]).1.children.get? 0).map (fun c => (c.data.st, c.data.remain))
+    = some (.finished, -200) := by decide +kernel
+
+/-- **width of `RepeatAction::remain_times_`** (`remain_times_ = repeat_times_ - 1` in size_t): for every count the type can hold
+the model's value IS the 64-bit one: times − 1 for 1 ≤ times < 2^64, and SIZE_MAX ("for ever") for 0. -/
+theorem C17_repeat_count_width (cfg : Cfg) (d : Node) (n times : Nat) (m : RepMode) (hk : d.kind = .repeat_ times m) (h : times < 2 ^ 64) :
+    (serialStart cfg d n).1.remainTimes = remainTimes64 times ∧
+    remainTimes64 times = (if times = 0 then 2 ^ 64 - 1 else times - 1) := by
+  rw [serialStart_remain cfg d n times m hk, remainTimes64_eq times h]; exact ⟨rfl, rfl⟩
+
+/-- a count narrowed to 32 / 16 bits would be a different action: 2^32 + 1 and 2^16 + 1 repetitions are not 1 repetition -/
+theorem C17_repeat_count_narrowing_counterexample :
+    remainTimes64 (2 ^ 32 + 1) = 2 ^ 32 ∧ remainTimes64 ((2 ^ 32 + 1) % 2 ^ 32) = 0 ∧ remainTimes64 ((2 ^ 16 + 1) % 2 ^ 16) = 0 ∧
+    remainTimes64 0 = 2 ^ 64 - 1 := by decide +kernel
+
+/-- **width of the timer deadline** (`TimerEventImpl::enable` passes `interval_.count()`, an int64, to
+`CommonLoop::addTimer(uint64_t interval)`; `expired = now + interval` in uint64): for a span ≥ 0 with now + span < 2^64 the
+deadline is the mathematical sum the model uses (`start`: now + ms); for the NEGATIVE remaining span −r of a late pause the
+64-bit sum is now − r whenever r ≤ now — which always holds (`remain = finish_time − now ≥ −now`, third clause) — and that is
+the model's `((now : Int) + remain).toNat`. -/
+theorem C17_sleep_deadline_width (now ms r : Nat) :
+    (now + ms < 2 ^ 64 → deadline64 now (ms : Int) = now + ms) ∧
+    (r ≤ now → now < 2 ^ 64 → deadline64 now (-(r : Int)) = now - r ∧ ((now : Int) + -(r : Int)).toNat = now - r) ∧
+    (∀ d : Node, -(now : Int) ≤ (Node.paused now d).remain) :=
+  ⟨deadline64_nonneg now ms, fun h1 h2 => ⟨deadline64_neg now r h1 h2, by omega⟩, fun d => by simp only [Node.paused]; omega⟩
+
+/-- outside that range the 64-bit deadline is NOT the mathematical one: a remaining span below −now would wrap to a deadline
+2^64 − … ms ahead (the sleep would never end); unreachable by the third clause above -/
+theorem C17_sleep_deadline_wrap_counterexample : deadline64 5 (-10) = 2 ^ 64 - 5 ∧ ((5 : Int) + -10).toNat = 0 := by decide +kernel
+
+/-- `finish_time_` is an int64 count of nanoseconds: it fits for every clock value + span up to 2^43 ms + 4·10^11 ms (the
+bound the driver and the harness put on raw durations and clock steps; about 292 years) -/
+theorem C17_finish_time_fits (now ms : Nat) (h : now + ms ≤ 2 ^ 43 + 400000000000) : finishTimeFits now ms = true := by
+  simp only [finishTimeFits, decide_eq_true_eq]; omega
+
+/-- **a timeout that fires ends the action for good** (every tree, every reachable state, whatever the schedule): when the
+timeout of an action that is Running or Pause fires, the action is Finished with result fail, the finish notification
+(false, reason 1 = ActionTimeout) is queued, NO descendant is left Running or Pause, and the tree invariant holds again. -/
+theorem C17_timeout_fires (d : Node) (cs : TL) (g : G) (hWF : WF (.node d cs) = true) (hg : GI g) (hu : d.underway = true)
+    (ht : d.tmoAt ≠ none) :
+    (onTimer d cs g false).1.st = .finished ∧ (onTimer d cs g false).1.res = .fail ∧
+    (∃ id, (id, TK.fin false 1) ∈ (onTimer d cs g false).1.tasks) ∧
+    QuietL (onTimer d cs g false).2.1 = true ∧ WF (.node (onTimer d cs g false).1 (onTimer d cs g false).2.1) = true :=
+  timeout_fires d cs g hWF hg hu ht
+
+/-- **the schedule hypothesis** `fineRun` ("every pass happens before the next expiry": at most one armed timer is due in any
+timer phase).  Under it a timer phase is a single timer callback (`fireTimers_fine`), so the race of
+`C17_timeout_result_depends_on_pass_granularity` cannot happen: the schedule with passes between the deadlines satisfies it and
+gives the child's result; the late schedule violates it. -/
+theorem C17_fine_schedule_timer_phase (t : T) (g : G) (h : ((allTimers t []).filter (fun x => x.1 ≤ g.now)).length ≤ 1) :
+    fireTimers t g = (t, g) ∨ ∃ x ∈ allTimers t [], x.1 ≤ g.now ∧ fireTimers t g = fireOne t g x.1 x.2.1 x.2.2 :=
+  fireTimers_fine t g h
+
+theorem C17_fine_schedule_on_race_tree :
+    fineRun raceTree {} [.calls [.start], .adv 150, .pass, .pass, .adv 100, .pass] = true ∧
+    rootFins (run raceTree {} [.calls [.start], .adv 150, .pass, .pass, .adv 100, .pass]) = [(true, .finished)] ∧
+    fineRun raceTree {} [.calls [.start], .adv 300, .pass, .pass] = false := by decide +kernel
+
+-- OPEN T, sharpened (round 9): the documented result of a tree with timeouts under `fineRun`.  Closed: what a firing timeout does
+--   (`C17_timeout_fires`), the timer phase under the hypothesis (`C17_fine_schedule_timer_phase`).  Missing: "an armed timeout that is
+--   not due changes nothing" — `E (step t g op).1 = (step (E t) g op).1` where `E` erases `tmo` / `tmoAt` of the root; every function
+--   of Model.lean only WRITES `tmoAt` (`:= none`, `armTmo`) and reads it in `fireOne` alone, so this is one commuting lemma per
+--   root-level function (start, pause, resume, stop, reset, finish, block, serialOnChild, applyNext, parOnChild, onChildBlk, onReplay,
+--   onTimer); then `C17_result_matches_doc_serial` transfers to the tree with a root timeout for every prefix of the schedule that ends
+--   before the deadline.  A Sleep leaf with its OWN timeout does not fit `DoneAs` (when the timeout wins the sleep timer stays armed
+--   until the parent resets the leaf — in the code as well: SleepAction has no onFinished; harmless, the late callback finds the
+--   action ended), so leaf timeouts need `Inert` weakened to "armed timers belong to ended leaves".
+-- OPEN M3, unchanged this round (Parallel below serial composites / over composite children): see the note below; the cheaper
+--   route found while reading `Good`: `RunOk` contains `AP`, and the trace clause uses `visit`, which is `[]` for a parallel node
+--   although its Function children ARE called — `visit (.par)` must become the children's `fnIds` (for leaf children, all inside
+--   `start()`), and `AP` "every queued task of the subtree is a finish notification of a child of the subtree's root".
+
 /-! ### OPEN (stated, not proved; carried by the executable model + correspondence + monitors)
 
 -- OPEN C17_result_matches_doc, remaining milestones (closed: `C17_result_matches_doc_serial` incl. Loop /
@@ -661,8 +769,10 @@ theorem C17_timeout_result_depends_on_pass_granularity :
 --   late pass a timeout beats a child whose delay is shorter.  Not closed; the generator family `tmo-race` runs both
 --   schedules on the real code in quick.
 -- OPEN "a Running composite waits for something" (`stuckRoot` never holds in the repaired configuration): monitored
---   by the driver on every state (`running-composite-waits-for-nothing`), proved on the instances above only; as an
---   invariant it needs, beside `WF`, "a Running serial composite has a current child under way, or a notification /
+--   by the driver on every state (`running-composite-waits-for-nothing`); round 9: PROVED for the control-free runs of the serial
+--   class and of Parallel over leaves (`C17_never_stuck_partial`, `C17_never_stuck_par_leaves`, via liveness, no new invariant);
+--   round 9 also found it FALSE of the code as found in free mode (patches/C17-15: CompositeAction::onFinished stopped the current
+--   child twice; corpus 22).  For histories with control calls it needs, as an invariant, beside `WF`, "a Running serial composite has a current child under way, or a notification /
 --   replay queued in its subtree, or its timeout armed" (and the analogue for ParallelAction) through every handler.
 -- OPEN `stepR` with no script attached is `step` (the driver runs `step` itself in that case): needs the frame lemma
 --   "no function of Model.lean changes `g.scr`".
